@@ -90,9 +90,27 @@ func (d *jsonDecoder) cutFieldsBySize(data []byte) []byte {
 		}
 
 		// [v.Index] is value start position including quote (")
+		// v.Raw is the quoted string as it is written in data, escape sequences included:
+		// keep whole escape sequences and cut up to the closing quote
+		rawStr := v.Raw[1 : len(v.Raw)-1]
+		keep := 0
+		for n := 0; n < limit && keep < len(rawStr); n++ {
+			switch {
+			case rawStr[keep] != '\\':
+				keep++
+			case keep+1 < len(rawStr) && rawStr[keep+1] == 'u':
+				keep += 6
+			default:
+				keep += 2
+			}
+		}
+		if keep >= len(rawStr) {
+			return jsonCutPos{}, false
+		}
+
 		return jsonCutPos{
-			start: v.Index + limit + 1,
-			end:   v.Index + len(v.Str),
+			start: v.Index + keep + 1,
+			end:   v.Index + len(rawStr),
 		}, true
 	}
 
